@@ -7,7 +7,9 @@ def run(ctx):
     ctx.rule = ("(a) budget: TLC runs (MC_PSProg, family budget) every control-form program x every budget "
                 "N in 1..MaxBudget in lock step with an unbudgeted twin and checks BudgetTransparent; the "
                 "budgeted behaviours (status, error, NumOps, final state) are replayed with MaxOps=N; the same for programs "
-                "delivered in two Execute calls (family budgetcalls, BudgetSpansCalls). "
+                "delivered in two Execute calls (family budgetcalls, BudgetSpansCalls), and loops announced for 100000 rounds that exit "
+                "leaves at once. Recursion that is not in tail position - also through an executable name given to if / ifelse / for - "
+                "must be ended by the nesting limit, not by the budget (PSShapes!DepthBounded, child processes). "
                 "(b) limits: recursion shapes against the real limits (MC_PSLimits). (c) %! start check "
                 "(PSStart). distinct = distinct (program, budget) pairs / shapes / prefix histories.")
     ctx.assumptions = ["PSMachine counts operations exactly as the library does (one per dispatched object; a name and "
